@@ -81,9 +81,9 @@ CLAIMED = {
         note="Trusted: TLC, atomic stubs, rank / exact / quantised sensors. The implied-spread clauses are thin (quantised 1e-4, only inside the root finder's bracket).",
         ref="5 (C19)"),
     "C10": dict(
-        technique="TLA+ spec Repr.tla (drift conversion between Levy-Khintchine representations over integer compensators) model-checked by TLC for all sequences of changes; histories on real LevyTriplet objects and the drift routes of exponential models trace-validated by TLC",
-        text="PARTIAL (history / state half only). TLC checks for all sequences of <= 5 representation changes (4 start representations, both variation flags, 27 compensator / drift combinations) that the canonical drift is invariant and that returning to a representation restores its drift. Real LevyTriplet objects over atomic measures (exact integers) and over HEM / Merton / VG / CGMY measures (equality classes at 1e-9) are driven through sequences of set_representation; exponential models (real ones, and atomic ones wrapped after arbitrary conversion histories) must give the forward through the characteristic function at -i, and the direct-simulation drift must equal r - d + omega + the drift of L in the ZERO representation.",
-        note="NOT decided (DESIGN.md section 6): that the closed-form exponents equal the Levy-Khintchine integral of the model's density and that the cumulant classes are its derivatives - real analysis with special functions.",
+        technique="TLA+ spec Repr.tla (drift conversion between Levy-Khintchine representations over integer compensators) model-checked by TLC for all sequences of changes; histories on real LevyTriplet objects and the drift routes of exponential models trace-validated by TLC; exponents and cumulants of the real models compared by TLC with the Levy-Khintchine integral of their own density (thin)",
+        text="PARTIAL (exact on the history / state half, thin on the analytic half). TLC checks for all sequences of <= 5 representation changes (4 start representations, both variation flags, 27 compensator / drift combinations) that the canonical drift is invariant and that returning to a representation restores its drift. Real LevyTriplet objects over atomic measures (exact integers) and over HEM / Merton / VG / CGMY measures (equality classes at 1e-9) are driven through sequences of set_representation; exponential models (real ones, and atomic ones wrapped after arbitrary conversion histories) must give the forward through the characteristic function at -i, and the direct-simulation drift must equal r - d + omega + the drift of L in the ZERO representation. Thin clauses (Trace_Exponent.tla): for HEM, Merton, VG and CGMY in all five activity branches at seeded parameters, levy_exponent at nine real / complex arguments (incl. -i) must equal i x a - sigma^2 x^2 / 2 + the Levy-Khintchine integral of the model's own density under the representation the model declares, and cumulant 1, 2, 4, 6 the corresponding moments (2e-6 of max(1, |value|)).",
+        note="The analytic half is judged at sampled parameters and arguments only, with scipy quadrature of the model's own density as the trusted reference (DESIGN.md section 6); it is not a proof for all parameters. Two defects repaired (CGMY y = 0, y = 1, y < 0).",
         ref="5 (C10)"),
     "C20": dict(
         technique="TLA+ spec Params.tla (raw parameters, stamp of the cached derived quantities, guarded assignment, initialisation, build) model-checked by TLC; assignment histories on the real parameter classes and the calibration contract trace-validated by TLC",
